@@ -26,7 +26,9 @@
 (*           form: the library's own concatenation of all chunks)          *)
 (*   error   errs <<[name,args]>> tool errors found in the error chain /   *)
 (*           text, panic BOOLEAN (the text reports a recovered panic)      *)
-(*   escaped a panic reached the caller of Invoke/Stream/Recv              *)
+(*   escaped a panic reached the caller of Invoke/Stream/Recv (and was     *)
+(*           recovered there by the harness)                               *)
+(*   died    the test process died while the case was running              *)
 (*   hang    the call had not returned when the harness's watchdog fired   *)
 (*   end     end of the case                                               *)
 (*                                                                         *)
@@ -45,7 +47,9 @@
 (*      panicked, no unhandled unknown name) the error is the error of     *)
 (*      one of the failing tools;                                          *)
 (*   R4 inside a graph a panic never reaches the caller.  Outside a graph  *)
-(*      an escaping panic of a panicking tool is not judged;               *)
+(*      only the panic of the tool of the FIRST call (run inline on the    *)
+(*      caller's goroutine) may reach the caller: not judged.  The process *)
+(*      never dies of a call;                                              *)
 (*   R5 the call returns (with a list or an error): it never hangs.        *)
 (***************************************************************************)
 EXTENDS Naturals, Sequences, FiniteSets, TLC, Json
@@ -113,6 +117,8 @@ EscapedRule(S, e) ==
   IF S.term # "" THEN Bad(S, "second-outcome")
   ELSE IF S.c.graph THEN Bad(S, "panic-escaped-the-enclosing-run")
   ELSE IF Panicked(S) = {} THEN Bad(S, "panic-although-no-tool-panicked")
+  ELSE IF ~\E r \in Panicked(S) : r.name = S.c.calls[1].name /\ r.args = S.c.calls[1].args
+       THEN Bad(S, "panic-of-a-tool-that-is-not-the-first-call-reached-the-caller")
   ELSE [S EXCEPT !.term = "escaped"]
 
 Apply(S, e) ==
@@ -126,6 +132,7 @@ Apply(S, e) ==
          [] e.ev = "result" -> ResultRule(S, e)
          [] e.ev = "error" -> ErrorRule(S, e)
          [] e.ev = "escaped" -> EscapedRule(S, e)
+         [] e.ev = "died" -> Bad(S, "process-died")    \* R4: whatever a tool does, the process survives the call
          [] e.ev = "hang" -> Bad(S, "call-hangs")      \* R5: the call returns (spec/ToolsNode.tla: Terminates holds for every completion order)
          [] e.ev = "end" -> IF S.term = "" THEN Bad([S EXCEPT !.open = FALSE], "neither-result-nor-error")
                             ELSE [S EXCEPT !.open = FALSE]
